@@ -486,7 +486,7 @@ impl Cfg {
         };
         Cfg {
             grease: v["grease"].as_bool().unwrap_or(false),
-            max_field: num(&v["max_field"]),
+            max_field: if v["max_field_huge"] == true { Some((1u64 << 62) - 1) } else { num(&v["max_field"]) },
             wt: v["wt"].as_bool().unwrap_or(false),
             ext_connect: v["ext_connect"].as_bool().unwrap_or(false),
             datagram: v["datagram"].as_bool().unwrap_or(false),
